@@ -42,7 +42,7 @@ VcNodePair ==
           /\ ready[i][2] = Ev.l /\ ready[j][2] = Ev.r
           /\ LET r1 == RemoveAt(ready, i)
                  j1 == IF j > i THEN j - 1 ELSE j
-             IN ready' = Append(RemoveAt(r1, j1), <<BNDiv(Ev.idx, "0x2"), Ev.out, BNSub(Ev.depth, "0x1")>>)
+             IN ready' = Append(RemoveAt(r1, j1), <<BNDiv(Ev.idx, "0x2"), Ev.out, FSub(Ev.depth, "0x1")>>)
     /\ UNCHANGED <<authseq, used, root, nvf, phase, lastok, nchecked>>
 
 Sibling(idx) == IF BNMod(idx, "0x2") = "0x0" THEN BNAdd(idx, "0x1") ELSE BNSub(idx, "0x1")
@@ -56,7 +56,7 @@ VcNodeAuth ==
           /\ IF BNMod(Ev.idx, "0x2") = "0x0"
              THEN ready[i][2] = Ev.l /\ authseq[used + 1] = Ev.r
              ELSE ready[i][2] = Ev.r /\ authseq[used + 1] = Ev.l
-          /\ ready' = Append(RemoveAt(ready, i), <<BNDiv(Ev.idx, "0x2"), Ev.out, BNSub(Ev.depth, "0x1")>>)
+          /\ ready' = Append(RemoveAt(ready, i), <<BNDiv(Ev.idx, "0x2"), Ev.out, FSub(Ev.depth, "0x1")>>)
     /\ used' = used + 1
     /\ UNCHANGED <<authseq, root, nvf, phase, lastok, nchecked>>
 
